@@ -13,8 +13,8 @@ from harness import leaves as lv
 from harness.common import fhex, fparse
 
 PROPERTY = "C02"
-GROUPS = ["leaves", "bij"]
-EXTRA_PROPS = ["Props/X01_bij.v"]  # inverse / log-det laws for every combinator tree (Model/Bij.v)
+GROUPS = ["leaves", "bij", "autoreg"]
+EXTRA_PROPS = ["Props/X01_bij.v", "Props/X01_autoreg.v"]  # inverse / log-det laws for every combinator tree (Model/Bij.v)
 MANIFEST = {
     "design_ref": "DESIGN.md 4.2",
     "technique": "Coq/Coquelicot proofs (is_derive) that each leaf's reported log-det is ln|f'(x)| of the map the model computes, inverse law, sums over chains/lifts, triangular determinant + executed correspondence + autodiff Jacobian as search oracle",
@@ -156,6 +156,8 @@ def run(ctx):
                           case=dict(spec=spec, method=m, x=[fhex(v) for v in np.ravel(x)]), found_input=bool(errs), unit=u.name,
                           expected=line[:300], observed=str(imp)[:300], broken="correspondence leaf-logdet-tie / Props/C02.v theorems of this leaf")
     flows_oracle(ctx)
+    from harness import autoreg
+    autoreg.run_units(ctx, theorems=False)  # real MaskedAutoregressive / Coupling layers vs Model/AutoregNet.v (log-dets, autodiff oracle)
     ctx.assumptions += ["autodiff (jax.jacobian in float64) is the reference of the search oracle", "float saturation excluded (non-finite outputs skipped)"]
 
 
